@@ -418,7 +418,12 @@ def run_check(prop, modname, tier, seed, profiles=('dev',), meta=None):
     os.replace(tmp, os.path.join(VERIF, 'evidence', prop + '.json'))
     print('%s tier=%s seed=%d: %d executions judged, %d distinct non-trivial, %d inconclusive, %d known, %d new violations, %.1fs'
           % (prop, tier, seed, evaluations, len(fps), incon, len(old), len(new), wall))
+    if new:
+        # a witnessed violation stands on its own (it is replayable against the real code); a missed coverage floor only
+        # invalidates a "held" verdict - and is often the consequence of the violation itself (the violating cases stop counting)
+        for b in broken: print('note: ' + b)
+        return 1
     if broken:
         for b in broken: print('BROKEN: ' + b)
         return 2
-    return 1 if new else 0
+    return 0
